@@ -449,7 +449,10 @@ namespace bloch::compiler {
         }
 
         if (expected.className.empty()) {
-            if (expected.value == ValueType::Unknown || actual.value == ValueType::Unknown)
+            // Only a genuinely unknown type is a wildcard: class and array types also carry the
+            // Unknown primitive tag and must not be accepted where a primitive is expected.
+            if (expected.value == ValueType::Unknown ||
+                (actual.value == ValueType::Unknown && actual.className.empty()))
                 return true;
             if (actual.className.empty())
                 return matchesPrimitive(expected.value, actual.value);
@@ -501,7 +504,8 @@ namespace bloch::compiler {
         }
 
         if (expected.className.empty()) {
-            if (expected.value == ValueType::Unknown || actual.value == ValueType::Unknown)
+            if (expected.value == ValueType::Unknown ||
+                (actual.value == ValueType::Unknown && actual.className.empty()))
                 return 0;
             if (actual.className.empty()) {
                 if (expected.value == actual.value)
@@ -830,7 +834,9 @@ namespace bloch::compiler {
 
         if (auto primType = targetInfo.value; primType != ValueType::Unknown) {
             ValueType initT = initInfo.value;
-            if (!matchesPrimitive(primType, initT)) {
+            // A class- or array-typed initialiser never fits a primitive slot (its primitive tag
+            // is Unknown, which matchesPrimitive treats as a wildcard).
+            if (!initInfo.className.empty() || !matchesPrimitive(primType, initT)) {
                 if (primType == ValueType::Bit) {
                     if (auto lit = dynamic_cast<LiteralExpression*>(initializer)) {
                         if (lit->literalType == "int") {
@@ -861,7 +867,7 @@ namespace bloch::compiler {
                                      "initialiser for '" + name + "' cannot be null");
                 }
             } else if (!isAssignableType(targetInfo, initInfo) &&
-                       initInfo.value != ValueType::Unknown) {
+                       !(initInfo.value == ValueType::Unknown && initInfo.className.empty())) {
                 throw BlochError(
                     ErrorCategory::Semantic, line, column,
                     "initialiser for '" + name + "' expected '" + typeLabel(targetInfo) + "'");
